@@ -119,6 +119,9 @@ W_RULES = [
 H_RULES = [(r"probDefn_->getStartStateCount\(\)", "N_STARTS", 2), (r"opt_->infiniteCost\(\)", "INF_COST", 1), (r"\bCost bestCost\b", "double bestCost", 1), (r"opt_->betterCost\(", "BETTER_COST(", 1),
            (r"opt_->combineCosts\(opt_->motionCostHeuristic\(probDefn_->getStartState\((\w+)\), statePtr\),\s*opt_->costToGo\(statePtr, probDefn_->getGoal\(\)\.get\(\)\)\)", r"VIA_START(\1)", 2)]
 W_SRC = [
+    dict(name="ord_queueComparator", file=ORD, sig=r"bool OrderedInfSampler::queueComparator\(const State \*a, const State \*b\)",
+         rules=[(r"InformedSampler::opt_->isCostBetterThan\(InformedSampler::heuristicSolnCost\(b\),\s*InformedSampler::heuristicSolnCost\(a\)\)", "(HC(b) < HC(a))", 0),
+                (r"InformedSampler::opt_->isCostBetterThan\(InformedSampler::heuristicSolnCost\((\w)\),\s*InformedSampler::heuristicSolnCost\((\w)\)\)", r"(HC(\1) < HC(\2))", 0)], loops={}),
     dict(name="is_heuristicSolnCost", file=ISS, sig=r"Cost InformedSampler::heuristicSolnCost\(const State \*statePtr\) const", rules=H_RULES, loops={"allow_uncontracted": True}),
     dict(name="iss_sampleUniform", file=ISS, sig=r"void InformedStateSampler::sampleUniform\(State \*statePtr\)", rules=W_RULES, loops={}),
     dict(name="ord_sampleUniform", file=ORD, sig=r"bool OrderedInfSampler::sampleUniform\(State \*statePtr, const Cost &maxCost\)", rules=W_RULES, loops={"allow_uncontracted": True}),
@@ -128,6 +131,7 @@ W_SRC = [
 _ORDN = ["ord_sampleUniform", "ord_createBatch", "ord_clearBatch"]
 for h, needs, fn, bound, can in (
         ("heur", ["is_heuristicSolnCost"], ["InformedSampler::heuristicSolnCost"], "<= 4 start states", [dict(name="first_start_skipped", where="body:is_heuristicSolnCost", rx=r"unsigned int i = 0u;", repl="unsigned int i = 1u;")]),
+        ("cmp", ["ord_queueComparator"], ["OrderedInfSampler::queueComparator"], None, [dict(name="most_expensive_on_top", where="body:ord_queueComparator", rx=r"HC\(b\) < HC\(a\)", repl="HC(a) < HC(b)")]),
         ("iss", ["iss_sampleUniform"], ["InformedStateSampler::sampleUniform"], None, [dict(name="fallback_always", where="body:iss_sampleUniform", rx=r"if \(!informedSuccess\)", repl="if (true)")]),
         ("ord", _ORDN, ["OrderedInfSampler::sampleUniform(state, maxCost)"], "batch size <= 3, <= 3 batches per call", [dict(name="stale_top_served", where="body:ord_sampleUniform", rx=r"if \(BETTER\(Q_TOP\(\), HEUR_OF\(Q_TOP\(\)\), maxCost\)\)", repl="if (BETTER(Q_TOP(), HEUR_OF(Q_TOP()), maxCost) || true)"),
                                                                                                      dict(name="popped_not_freed", where="body:ord_sampleUniform", rx=r"FREE\(Q_TOP\(\)\);", repl="")]),
